@@ -133,8 +133,17 @@ def gen_payload(rng, kind='any'):
         t = json.dumps(doc, ensure_ascii=rng.random() < 0.5).encode()
         return rng.choice([t, t + b'\0' * rng.randrange(1, 5), b'  ' + t + b' \n', t + b' \0\0', t[:-1], b'{' + t])
     if k < 0.8:
-        lines = [bytes(rng.choice(PRINTABLE + b'\t\x01\x7f') for _ in range(rng.randrange(0, 30))) for _ in range(rng.randrange(1, 6))]
-        t = b'\n'.join(lines)
+        if rng.random() < 0.5:
+            lines = [bytes(rng.choice(PRINTABLE + b'\t\x01\x7f') for _ in range(rng.randrange(0, 30))) for _ in range(rng.randrange(1, 6))]
+            t = b'\n'.join(lines)
+        else:
+            # every character that some Python API treats as a line boundary or as white space (str.splitlines, str.strip),
+            # other control characters, and non-ASCII text: only '\n' ends a line, everything non-printable becomes '.'
+            specials = '\r\x0b\x0c\x1c\x1d\x1e\x1f\x85\u2028\u2029\xa0\u3000\t\x00\x01\x7f\x80é€😀'
+            chars = [rng.choice(specials) if rng.random() < 0.25 else chr(rng.choice(PRINTABLE)) for _ in range(rng.randrange(1, 60))]
+            for _ in range(rng.randrange(0, 4)):
+                chars.insert(rng.randrange(len(chars) + 1), rng.choice(['\n', '\r\n', '\n\n', '\n\r']))
+            t = ''.join(chars).encode()
         return rng.choice([t, t + b'\0' * rng.randrange(1, 5), b'\n' + t + b'\n', 'wörld "x": y\nzwei'.encode(), t + b'\n\n'])[:65000] or b'x'
     return bytes([rng.choice([0, 0x20, 0x41, 0xff])] * n)
 
@@ -323,7 +332,8 @@ def describe(p):
 
 class PluginEnv:
     """
-    ud:  {module name (e.g. 'x1234'): ('echo',) | ('raises', msg) | ('none',) | ('text', t)}
+    ud:  {module name (e.g. 'x1234'): ('echo',) | ('raises', msg) | ('none',) | ('text', t) | ('import_raises', msg) |
+          ('raises_import', msg) (= the CALL raises ImportError(msg))}
     src: {module name (e.g. 'xsrc' or 'o8d00'): ('echo',) | ('raises',) | ('text', t)}
     callout: {creator lower (e.g. 'x'): ('table', {proc: [lines]}) | ('raises',)}
     registry: the message registry, a list of entries in the real registry's JSON shape
@@ -351,7 +361,8 @@ class PluginEnv:
             pass
 
         def udb(b):
-            return {'echo': 'echo', 'none': 'none'}.get(b[0]) or ('raises ' + tt(b[1]) if b[0] in ('raises', 'raises_import') else 'text ' + tt(b[1]))
+            return {'echo': 'echo', 'none': 'none'}.get(b[0]) or ('raises ' + tt(b[1]) if b[0] in ('raises', 'raises_import') else
+                                                                  'importraises ' + tt(b[1]) if b[0] == 'import_raises' else 'text ' + tt(b[1]))
 
         def srcb(b):
             return b[0] if b[0] in ('echo', 'raises') else 'text ' + tt(b[1])
@@ -432,6 +443,9 @@ def reset_caches():
 
 def fixture_source(pkg, beh):
     if pkg == 'udparsers':
+        if beh[0] == 'import_raises':
+            # the module exists, but executing it fails with something that is not an ImportError (e.g. a missing data file)
+            return 'raise RuntimeError(%r)\n' % beh[1]
         if beh[0] == 'echo':
             body = 'return json.dumps({"subType": sub, "version": ver, "data": bytes(data).hex()})'
         elif beh[0] == 'raises':
